@@ -1,16 +1,38 @@
 """C13 — a failed operation leaves no trace."""
+import json
+import os
+import subprocess
+
 from lib.checkdef import default_replay_cmd, run_property
+from lib.report import REPO, VENV_PY, VERIF
+
+_memo = {}
+
+
+def _replay(rep, r):
+    if not r.name.startswith("C13.inplace"):
+        return None, False, "structural obligation: no input to replay"
+    key = json.dumps({k: r.meta.get(k) for k in ("exception", "self_is_view", "prior_grad")}, sort_keys=True)
+    if key not in _memo:
+        env = dict(os.environ, PYTHONPATH=os.path.join(REPO, "src") + os.pathsep + VERIF)
+        p = subprocess.run([VENV_PY, os.path.join(VERIF, "runtime", "c13_replay.py"), key], capture_output=True, text=True, env=env, timeout=300)
+        lines = [l for l in p.stdout.splitlines() if l.startswith("{")]
+        _memo[key] = json.loads(lines[-1]) if lines else dict(confirmed=False, note=f"replay produced no result: {p.stderr[-300:]}")
+    out = _memo[key]
+    path = rep.write_replay(r.name, dict(obligation=r.to_json(), solver_output=r.model, confirmed=out.get("confirmed", False), replay=out))
+    return path, out.get("confirmed", False), out
 
 
 def run(tier, seed):
     return run_property(
         "C13", tier, seed, level="other",
-        deductive=[("c08_locks", r"C13\.|C08\.release|C08\.lock"), ("c04_graph", r"reroute"), ("c_op", r"^C13\.op|^C08\.op\.failed")],
+        deductive=[("c08_locks", r"C13\.|C08\.release|C08\.lock"), ("c04_graph", r"reroute"), ("c_op", r"^C13\.op|^C08\.op\.failed"), ("c13_inplace", None)],
+        replay=_replay,
         bounded=[("state_bounded.py", ["--check", "C13"])],
         trusted=["pyvc heap/dict model of the lock tables", "NumPy refuses flags.writeable=True on a view whose base is read-only (hence a view's flag is restored lazily, when its base is released)"],
         assumptions=[
             "deductive part: lock followed by release restores the lock tables' observable content for an array (C13.lock_release_roundtrip), and reroute_ops_through "
-            "(used by restore_old_graph) is position-wise and reversible; Tensor._op's try/except and _in_place_op's except path are covered by the bounded contract",
+            "(used by restore_old_graph) is position-wise and reversible; Tensor._op's try/except (contracts/c_op.py) and _in_place_op's except path (contracts/c13_inplace.py: any Exception subclass -> restore_old_graph once, prior (_grad,_view_grad,_base) restored, same exception re-raised, nothing else) are discharged with callees replaced by their contracts; that restore_old_graph really undoes the placeholder graph is bounded",
             "bounded: 3 base programs x every insertion position x 15 failing statement kinds x {one epoch, across an epoch boundary}; per-statement snapshot of "
             "(data, constant, base, creator, consumers, operand tuples, view children, grad) of every existing tensor; flags compared at the end of the program",
         ],
